@@ -50,15 +50,15 @@ STUBS = ['E1 scheduler.time -> 0.0', 'E2 tqdm -> None', 'E3 logging disabled', '
 
 
 # ------------------------------------------------------------------------------------------------ skeleton config
-def skeleton(nobs, nmach):
+def skeleton(nobs, nmach, names=None):
     os.makedirs(WORK, exist_ok=True)
-    p = os.path.join(WORK, f'cfg_{nobs}_{nmach}.json')
+    p = os.path.join(WORK, f'cfg_{nobs}_{nmach}' + ('_' + '-'.join(names) if names else '') + '.json')
     if not os.path.exists(p):
         obs = [dict(name=f'o{i + 1}', start=0, duration=1, instrument_demand=1, data_product_rate=1) for i in range(nobs)]
         cfg = {'instrument': {'telescope': {'total_arrays': 4, 'max_ingest_resources': 2,
                                             'pipelines': {o['name']: {'workflow': f"wf_{o['name']}.json", 'ingest_demand': 1} for o in obs},
                                             'observations': obs}},
-               'cluster': {'header': {}, 'system': {'resources': {f'm{i}': {'flops': 10, 'compute_bandwidth': 5} for i in range(nmach)},
+               'cluster': {'header': {}, 'system': {'resources': {(names[i] if names else f'm{i}'): {'flops': 10, 'compute_bandwidth': 5} for i in range(nmach)},
                                                     'system_bandwidth': 1}},
                'buffer': {'hot': {'capacity': 1000, 'max_ingest_rate': 100}, 'cold': {'capacity': 1000, 'max_data_rate': 100}},
                'timestep': 'seconds'}
@@ -281,7 +281,9 @@ class StubStatic(Planning):
             preds = [self._create_observation_task_id(p, observation, clock) for p in g.predecessors(n)]
             io = {self._create_observation_task_id(p, observation, clock): g.edges[p, n]['transfer_data'] for p in g.predecessors(n)}
             dur = g.nodes[n].get('dur', 1)
-            t = Task(tid, self.ests[k][n], self.ests[k][n] + dur, f"m{self.assign[k][n]}", preds, 0, 0, io, copy.copy(self.delay_model), gid=n)
+            names = STATE.get('names')
+            mid = names[self.assign[k][n]] if names else f"m{self.assign[k][n]}"
+            t = Task(tid, self.ests[k][n], self.ests[k][n] + dur, mid, preds, 0, 0, io, copy.copy(self.delay_model), gid=n)
             mapping[n] = t
             tasks.append(t)
         tasks.sort(key=lambda x: x.est)
@@ -353,6 +355,9 @@ def probe(sim, mon, snaps):
         used = (hot.total_capacity - hot.current_capacity) + (cold.total_capacity - cold.current_capacity)
         if used != resident:
             mon.tag('C07/used-space-differs-from-resident-data')
+        for o in tel.observations:
+            if o.status == RunStatus.FINISHED and o.total_data_size != o.ingest_data_rate * o.duration and o not in hot.observations['finished']:
+                mon.tag('C07/observation-finished-without-depositing-rate-times-duration')
         if tel.telescope_use > tel.total_arrays:
             mon.tag('C08/arrays-in-use-exceed-total')
         if len(r['ingest']) > tel.max_ingest:
@@ -457,7 +462,7 @@ def build(sc):
     """real Simulation object for the scenario (numbers overwritten after real Config parsing)"""
     global CUR
     nobs, nmach = len(sc['obs']), len(sc['machines'])
-    cfgpath = skeleton(nobs, nmach)
+    cfgpath = skeleton(nobs, nmach, sc.get('names'))
     env = simpy.Environment()
     alg = make_alg(sc['alg'])
     graphs = [graph_fn(g) for g in sc['graphs']]
@@ -466,7 +471,7 @@ def build(sc):
     delay = SeqDelay(sc['delays']) if sc.get('delays') else None
     STATE.clear()
     STATE.update(batch=(sc['alg']['kind'] in ('batch', 'reserve_only')), parts=sc['alg'].get('parts', 1), sim=None,
-                 obs_index={f'o{i + 1}': i for i in range(nobs)})
+                 obs_index={f'o{i + 1}': i for i in range(nobs)}, names=sc.get('names'))
     gl = sc['graphs'] if len(sc['graphs']) > 1 else sc['graphs'] * nobs
     if sc['alg']['kind'] in ('dynamic', 'greedy') or sc.get('static'):
         model = StubStatic(graphs, sc['assign'], sc['ests'])
@@ -653,7 +658,8 @@ def final_oracles(sc, res):
             mon.tag('C15/delay-added-but-task-not-flagged')
         if sc['alg']['kind'] == 'dynamic':
             k = STATE['obs_index'].get(a['obs'], 0)
-            if m.id != f"m{sc['assign'][k][t.graph_id]}":
+            want = sc['names'][sc['assign'][k][t.graph_id]] if sc.get('names') else f"m{sc['assign'][k][t.graph_id]}"
+            if m.id != want:
                 mon.tag('C17/task-ran-off-its-planned-machine')
     if any(v > 0 for v in mon.extras.values()) and sch.schedule_status is not ScheduleStatus.DELAYED:
         mon.tag('C15/schedule-not-reported-delayed')
